@@ -185,28 +185,25 @@ Theorem tie_locked s :
   locked_obs lock_prog s = Some (match owner s with Some _ => true | None => false end).
 Proof. unfold locked_obs. cbn. destruct (owner s); reflexivity. Qed.
 
-(* ---- C08 clause (a) on the regenerated code: acquire() called from an effectively cancelled scope on the
-   uncontended path raises the cancellation without performing its effect: owner, queue, futures untouched, nothing
-   enqueued, no release.  (On the contended path the source has no cancellation check before it enqueues: the flag is
-   not read, the task waits on its future and the cancellation is delivered to the waiting task, C03.) ---- *)
-Theorem cancelled_entry_noeffect s t : owner s = None -> waiters s = [] ->
-  exists e, exec acquire_entry t env_entry_cancelled (core s) = (e, core s, OCancelled) /\
-            e_enq e = [] /\ e_rel e = false.
+(* ---- C08 clause (a) on the regenerated code (after F53: on BOTH paths): acquire() called from an effectively
+   cancelled scope raises the cancellation at its first statement, for EVERY state - lock free or held, queue empty or
+   not, caller already owner or not: owner, queue, futures untouched, nothing enqueued, no release; the 'already held'
+   RuntimeError test and the enqueuing come after the check. ---- *)
+Lemma ckif_first_cancelled p : ckif_first p = true ->
+  forall t k, exists e, exec p t env_entry_cancelled k = (e, k, OCancelled) /\ e_enq e = [] /\ e_rel e = false.
 Proof.
-  intros Ho Hw. unfold acquire_entry. cbn. rewrite Ho, Hw. cbn. eexists. repeat split.
+  intros H t k. destruct p; try discriminate. destruct p1; try discriminate.
+  - destruct p2; try discriminate. destruct p2_1; try discriminate. cbn. eexists. repeat split.
+  - cbn. eexists. repeat split.
 Qed.
 
-Theorem cancelled_entry_contended_as_live s t : owner s <> None \/ waiters s <> [] ->
-  snd (fst (exec acquire_entry t env_entry_cancelled (core s))) = snd (fst (exec acquire_entry t env_entry (core s))) /\
-  snd (exec acquire_entry t env_entry_cancelled (core s)) = snd (exec acquire_entry t env_entry (core s)).
-Proof.
-  intros H. unfold acquire_entry.
-  destruct s as [fa ow ws fu nf ph mc h q]; cbn in *.
-  destruct ow as [x|]; cbn.
-  - destruct (Nat.eqb x t); cbn; split; reflexivity.
-  - destruct ws as [|w r]; cbn; [|split; reflexivity].
-    destruct H as [H | H]; congruence.
-Qed.
+Theorem acquire_entry_check_first : ckif_first acquire_entry = true.
+Proof. reflexivity. Qed.
+
+Theorem cancelled_entry_noeffect s t :
+  exists e, exec acquire_entry t env_entry_cancelled (core s) = (e, core s, OCancelled) /\
+            e_enq e = [] /\ e_rel e = false.
+Proof. apply ckif_first_cancelled, acquire_entry_check_first. Qed.
 
 (* ---- the machine built from the generated segments is the model ---- *)
 Theorem gstep_eq_step s o : gstep lock_prog s o = step s o.
@@ -520,8 +517,10 @@ Proof. vm_compute. reflexivity. Qed.
 Example ex_check_after_effect_is_stuck_cancelled :
   snd (exec (SSeq SBindTask (SSeq SSetOwnerTask SCkIf)) 1 env_entry_cancelled (core (init false))) = OStuck.
 Proof. vm_compute. reflexivity. Qed.
-Example ex_cancelled_entry_hyp : owner (init false) = None /\ waiters (init false) = [].
-Proof. split; reflexivity. Qed.
+(* the order before F53 (test, check, take) is not check-first *)
+Example ex_old_order_is_not_check_first :
+  ckif_first (SSeq SBindTask (SIf (CAnd COwnerNone CNoWaiters) (SSeq SCkIf (SSeq SSetOwnerTask SReturn)) SSkip)) = false.
+Proof. reflexivity. Qed.
 Example ex_check_in_continuation_is_stuck :
   snd (exec SCkIf 1 (env_resume 1 (Some 0)) (core (init false))) = OStuck.
 Proof. vm_compute. reflexivity. Qed.
